@@ -245,3 +245,23 @@ package vals
 //@   ensures istype(k, string) && isslice(k.(string)) ==> err != nil
 //@   ensures err == nil && istype(k, int) ==> istype(r, vector.Vector) && vec_len(r.(vector.Vector)) == vec_len(l) && vec_at(r.(vector.Vector), adj(k.(int), vec_len(l))) === v
 //@   ensures err == nil && istype(k, int) ==> (forall p int :: 0 <= p && p < vec_len(l) && p != adj(k.(int), vec_len(l)) ==> vec_at(r.(vector.Vector), p) === vec_at(l, p))
+
+// ---------------------------------------------------------------------------
+// C11 / C05: canonical number representations (inlined into the arithmetic harnesses).
+//@ func UnifyNums
+//@   inline
+//@   loop 1 unroll 2
+//@   loop 2 unroll 2
+//@   loop 3 unroll 2
+//@   loop 4 unroll 2
+//@   loop 5 unroll 2
+//@ func PromoteToBigInt
+//@   inline
+//@ func PromoteToBigRat
+//@   inline
+//@ func NormalizeBigInt
+//@   inline
+//@ func NormalizeBigRat
+//@   inline
+//@ func getInt
+//@   inline
